@@ -2,8 +2,11 @@
 from .. import lib, runner
 
 PROP = "C14"
-THEOREMS = ["CsrMon.mux_inside", "CsrMon.layout_fits", "CsrMon.irq_line", "CsrMon.no_clear_without_write", "CsrMon.pending_w1c", "CsrMon.enable_latched", "CsrMon.enable_kept", "CsrMon.mask_read_atomic"]
-IMPORTS = ["SocVerif.Props.C14"]
+THEOREMS = ["CsrMon.mux_inside", "CsrMon.layout_fits", "CsrMon.irq_line", "CsrMon.no_clear_without_write", "CsrMon.pending_w1c", "CsrMon.enable_latched", "CsrMon.enable_kept", "CsrMon.mask_read_atomic",
+            "CsrMonT.pending_strobe_exact", "CsrMonT.no_clear_without_write_behind", "CsrMonT.pending_w1c_behind", "CsrMonT.enable_latched_behind",
+            "CsrMonT.enable_kept_behind", "CsrMonT.mask_read_atomic_behind", "CsrMonT.irq_line_behind", "CsrMonT.direct_is_closed",
+            "CsrMonT.direct_meets_spec", "CsrMonT.pending_w1c_behind_tree"]
+IMPORTS = ["SocVerif.Props.C14", "SocVerif.Props.C14T"]
 
 
 def run(rep, tier):
